@@ -296,6 +296,28 @@ scen_back(const sim::Plan& p, int threads, const sc::Params& sp)
   return o;
 }
 
+// back projection with another number of threads than at set_up (set_num_threads() called in between, as an interactive
+// session or a script can do): per-thread images are sized at set_up
+inline Outcome
+scen_back_threads_changed(const sim::Plan& p, int threads, const sc::Params& sp)
+{
+  Setup s = make_setup(p);
+  ProjDataInMemory data(s.exam, s.pdi);
+  fill_projdata(data, (uint64_t)p.c("data_seed", 1), s.intmat);
+  BackProjectorByBinUsingProjMatrixByBin bck(s.matrix);
+  sc::configure(sp);
+  // at set_up: 1 thread for the reference run, otherwise a drawn other count (smaller or larger than at use)
+  const int at_setup = threads == 1 ? 1 : (int)std::max<long>(1, std::min<long>(16, (p.c("nreq", 8) % 2) ? threads / 2 : threads + 1 + p.c("hot", 1)));
+  set_num_threads(at_setup);
+  bck.set_up(s.pdi, s.image);
+  set_num_threads(threads);
+  s.image->fill(0.f);
+  bck.back_project(*s.image, data);
+  Outcome o;
+  o.v.assign(s.image->begin_all(), s.image->end_all());
+  return o;
+}
+
 // lazy geometry tables: harness threads use a *fresh* ProjDataInfo from the first call on
 inline Outcome
 scen_lazy(const sim::Plan& p, int threads, const sc::Params& sp)
@@ -510,6 +532,11 @@ run_scenario(const sim::Plan& p, const std::string& scen, sim::Result& res)
   else if (scen == "bck")
     {
       fn = scen_back;
+      exact = intmat;
+    }
+  else if (scen == "bck_nt")
+    {
+      fn = scen_back_threads_changed;
       exact = intmat;
     }
   else if (scen == "lazy")
